@@ -776,6 +776,9 @@ func genC03(c *Ctx) {
 	}
 	if c.final {
 		for l, r := range c.memo {
+			if strings.ContainsAny(l[:1], "ETPNK") {
+				continue // internal stages reached through the hooks are not the exported API
+			}
 			if strings.Contains(r, "PANIC") {
 				c.fail("protocol line", l, "panic", "a result or an error value", "recover() around the call")
 			}
@@ -1379,7 +1382,7 @@ func genC07(c *Ctx) {
 	}
 	// ---- the range table as the source of entries: a matching entry stays a matching entry whatever else is on the
 	// list and wherever it stands (early exits keyed on table order, caches keyed on prefixes of ids)
-	var firsts []string   // first id of every version group, in table order
+	var firsts []string // first id of every version group, in table order
 	famOfIdx := map[int]int{}
 	for fi, fam := range tRanges {
 		for _, g := range fam {
